@@ -173,6 +173,7 @@ func (b *batch) run(regTmpl, mainGo string) (res []*result, incon string) {
 		_ = os.Remove(b.abs(r.C))
 	}
 	env := []string{"GOFLAGS=-mod=mod", "GOPROXY=off"}
+	emitPasses := 0
 
 	for pass := 0; ; pass++ {
 		if live() == 0 {
@@ -202,6 +203,11 @@ func (b *batch) run(regTmpl, mainGo string) (res []*result, incon string) {
 						if r := byPath[filepath.Clean(m[1])]; r != nil && r.Status == stNotRun {
 							drop(r, stEmitRej, strings.TrimSpace(m[2])+" :: "+strings.TrimSpace(m[3]))
 							progressed = true
+							// the translator stops at the first compile error: after the second one,
+							// find all remaining rejects at once (every file alone, in parallel)
+							if emitPasses++; emitPasses == 2 {
+								b.classifySingly(res, drop)
+							}
 						}
 					}
 				}
